@@ -512,6 +512,44 @@ theorem quadratic_assignment_refuses_iff (D F : List (List Rat)) :
   simp only
   cases hD : isSquare D.length D <;> cases hF : isSquare D.length F <;> simp
 
+/-! ## `binary_paint_shop_problem(car_sequence)` (with the repair of the multiplicity check) -/
+
+/-- accepted exactly when every car of the sequence appears exactly twice -/
+theorem paint_shop_refuses_iff (seq : List Label) : bpsp seq = none ↔ ∃ c ∈ seq, countL c seq ≠ 2 := by
+  unfold bpsp
+  split
+  · rename_i h
+    refine ⟨fun _ => ?_, fun _ => rfl⟩
+    simpa [List.any_eq_true] using h
+  · rename_i h
+    refine ⟨fun hh => by simp at hh, fun hex => ?_⟩
+    exfalso; apply h
+    simpa [List.any_eq_true] using hex
+
+/-- **the Ising energy is the paint-shop objective up to a constant**: for every accepted sequence and every spin
+    sample, `2 × (number of colour changes of the colouring sample_to_coloring reads off the sample)
+    = (L − 1) + E(s) + #(car directly followed by itself)` -/
+theorem paint_shop_energy_counts_changes (seq : List Label) (bag : List (PTerm Label)) (h : bpsp seq = some bag)
+    (x : Label → Rat) (hx : ∀ v, x v * x v = 1) :
+    twiceChanges x [] seq = (((seq.length - 1 : Nat)) : Rat) + evalBag x bag + ((sameAdj seq : Nat) : Rat) := by
+  unfold bpsp at h
+  split at h
+  · simp at h
+  · rename_i hall
+    simp only [Option.some.injEq] at h; subst h
+    apply bpspGo_changes x hx seq []
+    intro c
+    have h0 : countL c [] = 0 := rfl
+    rw [h0]
+    by_cases hm : c ∈ seq
+    · have : ¬ (countL c seq ≠ 2) := by
+        intro hne
+        apply hall
+        simp only [List.any_eq_true, decide_eq_true_eq]
+        exact ⟨c, hm, hne⟩
+      omega
+    · rw [countL_zero_of_not_mem c seq hm]; omega
+
 /-! ## kMC-SAT (`random_kmcsat`, `random_nae3sat`, `random_2in4sat`): the model as a function of the drawn clauses -/
 
 /-- the energy is the sum of the clause energies (the variables themselves carry no bias) -/
@@ -610,6 +648,8 @@ example : Gen.combinations [.int 0, .int 1, .int 2] 1 1 .binary ≠ none := by d
 example : (quadraticKnapsack [1, 2] [1, 1] [[0, 3], [3, 0]] 1).map (fun q => q.obj.length) = some 5 := by decide +kernel
 example : (kmcsat [.int 0, .int 1, .int 2] 3 [[(0, 1), (2, -1), (1, 1)]]).map List.length = some 6 := by decide +kernel
 example : (quadraticAssignment [[0, 1], [2, 0]] [[0, 3], [5, 0]]).map (fun q => q.cons.length) = some 4 := by decide +kernel
+example : (bpsp [.str "a", .str "b", .str "a", .str "b"]).map List.length = some 3 := by decide +kernel
+example : bpsp [.str "a", .str "a", .str "a", .str "b"] = none := by decide +kernel
 example : (magicSquare 2 2).map (fun q => q.cons.length) = some 7 := by decide +kernel
 
 end C17
